@@ -87,6 +87,51 @@ func crafted() []corpus.Seed {
 					}
 				}
 			}
+			// mfra with a second tfra for another track that lists more / fewer entries
+			for _, delta := range []int{1, -1} {
+				es3, es4 := mut.Parse(data), mut.Parse(data)
+				mfra, mfra2 := findTop(es3, "mfra"), findTop(es4, "mfra")
+				if mfra == nil || mfra2 == nil {
+					break
+				}
+				tfra2 := findType(mfra2.Children, "tfra")
+				if tfra2 == nil || len(tfra2.Payload) < 16 {
+					break
+				}
+				p := tfra2.Payload
+				esz := 8
+				if p[0] == 1 {
+					esz = 16
+				}
+				esz += int(p[11]>>4&3) + 1 + int(p[11]>>2&3) + 1 + int(p[11]&3) + 1
+				n := int(p[12])<<24 | int(p[13])<<16 | int(p[14])<<8 | int(p[15])
+				if n < 1 || len(p) != 16+n*esz || n+delta < 1 {
+					break
+				}
+				p[7]++ // another track id
+				if delta > 0 {
+					p = append(p, p[len(p)-esz:]...)
+				} else {
+					p = p[:len(p)-esz]
+				}
+				n += delta
+				p[12], p[13], p[14], p[15] = byte(n>>24), byte(n>>16), byte(n>>8), byte(n)
+				tfra2.Payload = p
+				var ch []*mut.E
+				for _, c := range mfra.Children {
+					ch = append(ch, c)
+					if c.Type == "tfra" && tfra2 != nil {
+						ch = append(ch, tfra2)
+						tfra2 = nil
+					}
+				}
+				mfra.Children = ch
+				if mfro := findType(mfra.Children, "mfro"); mfro != nil && len(mfro.Payload) >= 8 {
+					sz := mfra.Size()
+					mfro.Payload[4], mfro.Payload[5], mfro.Payload[6], mfro.Payload[7] = byte(sz>>24), byte(sz>>16), byte(sz>>8), byte(sz)
+				}
+				out = append(out, corpus.Seed{Name: f.Name + "#mfra-second-tfra", Kind: "crafted", Data: mut.Serialize(es3)})
+			}
 			// reversed top-level order
 			var rev []*mut.E
 			for i := len(es) - 1; i >= 0; i-- {
@@ -171,6 +216,15 @@ func lattice() []corpus.Seed {
 		}
 	}
 	return out
+}
+
+func findTop(es []*mut.E, t string) *mut.E {
+	for _, e := range es {
+		if e.Type == t {
+			return e
+		}
+	}
+	return nil
 }
 
 func findType(es []*mut.E, t string) *mut.E {
